@@ -662,6 +662,22 @@ def _regex_fragments(run: Run, gm: Module) -> None:
                 shape = (ast.unparse(t.func), t.args[0].value)
             if val is True and isinstance(t, ast.Name) and t.id in shape_vars:
                 shape = shape_vars[t.id]
+        if shape is None:
+            # the other proof: the atoms found by finditer tile the pattern - the first starts at 0, the last ends at len, and
+            # consecutive atoms touch. That is re.fullmatch of (atom)+.
+            for a_ in walk_no_nested(fi.node):
+                if isinstance(a_, ast.Assign) and len(a_.targets) == 1 and isinstance(a_.targets[0], ast.Name) and isinstance(a_.value, ast.Call):
+                    c_ = a_.value
+                    if isinstance(c_.func, ast.Name) and c_.func.id in ("list", "tuple") and len(c_.args) == 1 and isinstance(c_.args[0], ast.Call):
+                        c_ = c_.args[0]
+                    if ast.unparse(c_.func) == "re.finditer" and len(c_.args) == 2 and isinstance(c_.args[1], ast.Name) and c_.args[1].id in tainted:
+                        A_, P_ = a_.targets[0].id, c_.args[1].id
+                        atom_rx = run.project.try_fold(gm, c_.args[0])
+                        falses = {" ".join(ast.unparse(t).split()) for t, val in branch_conditions(cfg, rn.id) if val is False}
+                        ends_ok = f"not {A_} or {A_}[0].start() != 0 or {A_}[-1].end() != len({P_})" in falses
+                        gaps_ok = any(f_.startswith("any((") and f".end() != " in f_ and f".start() for " in f_ and f"in zip({A_}, {A_}[1:])))" in f_ for f_ in falses)
+                        if isinstance(atom_rx, str) and ends_ok and gaps_ok:
+                            shape = ("re.fullmatch", "(?:" + re.sub(r"\(\?P<[A-Za-z_][A-Za-z0-9_]*>", "(?:", atom_rx) + ")+")
         ok = False
         detail = "no dominating re.fullmatch/re.match shape test with a constant regex"
         if shape is not None:
